@@ -143,6 +143,22 @@ pub mod tempfile {
             unimplemented!()
         }
 
+        /// open(path, O_RDWR) on the temporary file's own path: a second, read-write descriptor on the same inode.
+        #[verifier::external_body]
+        pub fn reopen(&self, Tracked(w): Tracked<&mut World>) -> (r: std::io::Result<std::fs::File>)
+            requires
+                old(w).inv(),
+            ensures
+                final(w).inv(),
+                final(w).same_fs(*old(w)),
+                final(w).kept(*old(w)) && final(w).listed == old(w).listed && final(w).published == old(w).published && final(w).now == old(w).now,
+                final(w).steps == old(w).steps + 1 && final(w).opens == old(w).opens + 1,
+                final(w).hard_faults == old(w).hard_faults + if r.is_err() { 1nat } else { 0nat },
+                r.is_ok() ==> r.unwrap().ino() == self.ino() && r.unwrap().can_write() && r.unwrap().offset() == 0,
+        {
+            unimplemented!()
+        }
+
         #[verifier::external_body]
         pub fn into_parts(self) -> (r: (std::fs::File, TempPath))
             ensures
